@@ -102,6 +102,7 @@ class TLSConnection(TLSRecordLayer):
         # if and how big is the limit on records peer is willing to accept
         # used only for TLS 1.2 and earlier
         self._peer_record_size_limit = None
+        self._own_record_size_limit = None
         # whether the server promised to send a NewSessionTicket message
         # (TLS 1.2 and earlier, client side only)
         self._session_ticket_negotiated = False
@@ -1257,6 +1258,8 @@ class TLSConnection(TLSRecordLayer):
                         "record_size_limit extension"):
                     yield result
             self._peer_record_size_limit = size_limit_ext.record_size_limit
+            self._own_record_size_limit = min(2**14,
+                                              settings.record_size_limit)
         self._session_ticket_negotiated = serverHello.getExtension(
             ExtensionType.session_ticket) is not None
         yield serverHello
@@ -3961,6 +3964,8 @@ class TLSConnection(TLSRecordLayer):
                     # handling of Finished
                     self._peer_record_size_limit = min(
                         2**14, size_limit_ext.record_size_limit)
+                    self._own_record_size_limit = min(
+                        2**14, settings.record_size_limit)
 
         #Now that the version is known, limit to only the ciphers available to
         #that version and client capabilities.
@@ -5017,10 +5022,9 @@ class TLSConnection(TLSRecordLayer):
         self._changeWriteState()
 
         if self._peer_record_size_limit:
+            # the limit applies to protected records only, the one for
+            # records we receive is set when the peer switches to them
             self._send_record_limit = self._peer_record_size_limit
-            # this is TLS 1.2 and earlier method, so the real limit may be
-            # lower that what's in the settings
-            self._recv_record_limit = min(2**14, settings.record_size_limit)
 
         if nextProto is not None:
             nextProtoMsg = NextProtocol().create(nextProto)
@@ -5099,6 +5103,11 @@ class TLSConnection(TLSRecordLayer):
 
         # Switch to pending read state
         self._changeReadState()
+
+        if self._peer_record_size_limit:
+            # this is TLS 1.2 and earlier method, so the real limit may be
+            # lower that what's in the settings
+            self._recv_record_limit = self._own_record_size_limit
 
         # Server Finish - Are we waiting for a next protocol echo?
         if expect_next_protocol:
